@@ -1,14 +1,49 @@
 # Per-property claims (read by mkmanifest.py).  Keep in step with DESIGN.md.
 
 claim("C01", "DESIGN.md 5 C01",
-      "Every obligation generated from the contracts of packetmap.compare, (*Map).Map, Drop, reset, addMapping, direct (and Reverse for the inverse) is discharged for all 2^16 seqnos and all table states: "
-      "exact case-by-case postconditions of Map/Drop, the representation invariant wf (shape + I_tail + ghost link delta == -dropped) preserved by every operation, "
-      "and the property clauses as postconditions over ghost state: number == source - withheld, successor-of-last-number (unique/ordered/gap-free), "
+      "Every obligation generated from the contracts of packetmap.compare, (*Map).Map, Drop, reset, addMapping, direct, Reverse and of rtpconn.(*rtpDownTrack).Write/write is discharged for all 2^16 seqnos and all table states: "
+      "exact case-by-case postconditions of Map/Drop, the representation invariant wf (shape + I_tail + ghost links delta == -dropped, pidDelta == droppedFrames) preserved by every operation, "
+      "and the property clauses as postconditions over ghost state: number == source - withheld (Map and, composed, Write: the emitted packet's seqno field), successor-of-last-number (unique/ordered/gap-free), "
       "a late copy of a packet of the newest interval keeps its number, a packet just withheld lies outside the newest interval.",
-      "Assumed: sync.Mutex lock-ghost contract; sequential semantics (Drop-then-Map is not atomic under concurrent Writes). "
-      "Not decided: the ring-order invariant over older intervals (aged intervals alias after >= 2^15 packets without a new interval: clauses are stated under explicit youngness hypotheses); "
-      "composition with rtpconn.Write is claimed under C02/C04.")
+      "Assumed: sync.Mutex lock-ghost contract; sequential semantics (Drop-then-Map is not atomic under concurrent Writes); pion/webrtc, sync.Pool and estimator contracts listed in the evidence. "
+      "Not decided: the ring-order invariant over older intervals (aged intervals alias after >= 2^15 packets without a new interval: clauses about late copies / withheld packets are stated for the newest interval under explicit count bounds).")
 
-for pid, reason in {
-}.items():
-    na(pid, reason)
+claim("C02", "DESIGN.md 5 C02",
+      "codecs.RewritePacket is proved against a byte-exact contract for ALL byte strings and codec names (marker only ever set, seqno bytes, every other byte unchanged except the 7/15-bit picture id, "
+      "new id == old id + delta mod 2^7/2^15, M bit kept, no out-of-bounds access); rtpconn.Write is proved to leave its input buffer unmodified, to emit at most one packet, and to emit a packet whose "
+      "picture id is the source id minus the number of withheld frames (ghost droppedFrames maintained by packetmap.Drop/Map), through call-site proof steps over the private copy.",
+      "Assumed: pion depacketiser contracts (PacketFlags is treated as a deterministic function of codec and bytes), sync.Pool discipline (a pooled buffer has length 1504 and is not aliased), "
+      "TrackLocalStaticRTP.Write does not modify its argument. Not decided: SSRC / payload type / header-extension rewriting inside pion (excluded by the statement); "
+      "the marker rule is proved as 'only ever set' in RewritePacket and setMarker's definition is read from the code, not separately specified.")
+
+claim("C04", "DESIGN.md 5 C04",
+      "The layer word: pack/unpack are proved lossless, and the invariant INV (selected and wanted layers never exceed the highest seen; limitSid implies wantedSid == 0; fields fit 4 bits) is proved "
+      "for every value any writer stores (setLayerInfo requires INV at every call site; loads assume it: rely/guarantee, hence for all interleavings). "
+      "Write's per-packet transition rules are postconditions over the old and new word and PacketFlags' result: sid changes only at a keyframe start or when following a new top layer; tid falls only at a frame start and rises only at a keyframe, "
+      "an up-switch point not above the wanted layer, or following a new top layer; an in-order packet above the selection is withheld (nothing emitted, recorded by the map); limitSid forces sid 0 at the next keyframe. "
+      "adjustLayer moves only the wanted layers by one step within the seen range; updateRate's value is always within [minLossRate, maxLossRate] with no 64-bit overflow.",
+      "Assumed: atomics are modelled as plain accesses within one function body (sequential), estimator readings arbitrary, pion TID/SID field widths. "
+      "Not decided: lost updates of the transition bookkeeping when Write and adjustLayer race; replaceTracks' part (webclient.go) is not yet under contract.")
+
+claim("C05", "DESIGN.md 5 C05",
+      "packetcache New, Store, get, Get, GetAt, Last, Keyframe, resize, Resize, ResizeCond, entry.length/marker: Store puts exactly the packet (seqno, timestamp, length, marker, every byte) in slot old(tail) and nothing else changes; "
+      "Get/GetAt return either nothing or exactly one stored slot's length/timestamp/marker/bytes (first match; bytes past the length untouched; a recycled or out-of-range slot yields nothing); "
+      "resize copies the newest min(old,new) slots field by field and byte by byte in each of its three branches, keeps indices below the tail valid when it can, and preserves the length invariant; all for symbolic tails and 16-bit seqnos (wraparound inside the proof).",
+      "Assumed: sync.Mutex lock ghosts (every public method is verified to hold the lock from first to last access, so the sequential contracts are the linearised behaviour). "
+      "Quick tier: the ring-position restatements of resize (j-th newest slot) are stretch (10-20 s each) and claimed only in the thorough tier. Not decided: call-site preconditions in rtpconn readLoop/writers are not yet under contract.")
+
+claim("C06", "DESIGN.md 5 C06",
+      "bitmap.set/get, BitmapGet, Store (counters), Expect, GetStats, ToBitmap: get reports only seqnos that were examined (strictly before next, inside the window) whose bit was clear, shifts them out (reported at most once) and is complete for the examined range; "
+      "set never un-records a received packet inside the 2^15 horizon and records only the packet given; ToBitmap's result is a lossless split of the list (every consumed seqno encoded, every set bit stands for a list element); "
+      "received <= expected per interval and in total is preserved; the extended highest seqno is monotone unless the stream restarts (> 256 backwards).",
+      "Assumed: 2^32 packets without a statistics reset do not occur (stated precondition). Not decided: 'a packet that goes missing from a steadily arriving stream IS requested' (needs timing/progress), "
+      "the NACK call sites in rtpreader/rtpwriter and sendUpRTCP's fraction arithmetic are not yet under contract.")
+
+claim("C12", "DESIGN.md 5 C12",
+      "No-panic sweep (index, slice bounds, nil dereference, division, type assertion, makeslice) proved for all inputs over: codecs.RewritePacket, PacketFlags, Keyframe (AV1 and H.264 parsers with loop invariants), KeyframeDimensions; "
+      "all of packetmap and packetcache under their representation invariants; rtpconn Write/write, layer functions, adjustLayer, updateRate, bitrate, sadd. RewritePacket cannot change the packet length (it receives the slice by value and writes only data[*]).",
+      "Assumed: pion Unmarshal contracts (write only their receiver; VP9 success implies non-empty input). Not decided / not yet under contract: the websocket message handlers, HTTP handlers, sdpfrag; panics inside dependencies; resource exhaustion.")
+
+PENDING = "not yet carried by the engine in this build (work in progress; see DESIGN.md section 9 for the order of work)"
+for pid in ["C03", "C07", "C08", "C09", "C10", "C11", "C13", "C14", "C15", "C16", "C17", "C18", "C19", "C20"]:
+    na(pid, PENDING)
